@@ -45,3 +45,9 @@ reg("C12", weave=["concurrency"],
     real=["concurrency/runner.go", "concurrency/closer.go", "concurrency/closer_unit.go (WithFatalShutdown, -tags unit)"],
     stub=["runners, closers, logger and the fatal-shutdown action are harness stubs programmed from the tape"],
     assumptions=["fatal-shutdown must fire if the slowest closer exceeds grace + 1.5 ms (injected-delay budget) and must not if it stays 1.5 ms under; the band in between is not judged"])
+reg("C15", weave=["ttlcache"],
+    quick_runs=320000, thorough_runs=6000000,
+    real=["ttlcache/ttlcache.go", "github.com/alphadose/haxmap (third-party, interleaved at call granularity only)", "k8s.io/utils/clock RealClock over the bubble clock"],
+    stub=[],
+    assumptions=["sequential configuration: exact agreement with a reference map with expiries; concurrent configuration: a miss on a live key is excused only if the key had an earlier entry (the documented cleanup/refresh race)",
+                 "haxmap internals are not interleaved below call granularity"])
